@@ -9,6 +9,7 @@ import (
 
 	"verif/checker/absint"
 	"verif/checker/load"
+	"verif/checker/poly"
 	"verif/checker/report"
 )
 
@@ -261,8 +262,76 @@ func (c *Ctx) recognisePointOp(cfg string, fn *ssa.Function) (*absint.PointOp, b
 			}
 		}
 	}
+	// Non-degeneracy. Equality with the group law as rational functions (modulo the curve equation) says nothing
+	// where the helper's own denominators vanish: an incomplete addition law — the "dedicated" one for distinct
+	// points, any formula that divides by x1y2 − x2y1 — agrees with the law on generic inputs and yields Z = 0 on a
+	// thin set related to the small-order points. The unified law of the library divides by 1 ± d·x1x2y1y2 only,
+	// which never vanishes (d is a non-square). So a helper is recognised only if none of the polynomials it
+	// effectively divides by (numerators of its Z-like output coordinates, denominators of all output
+	// coordinates) vanishes identically on the loci where incomplete laws fail: an input at the neutral element,
+	// at the order-2 point, at either order-4 point, and the second input equal to ±(first input) + S for S among
+	// those four points.
+	nondegenerate := func() bool {
+		R := d.R
+		im := R.Const(absint.SqrtM1Spec())
+		type sub map[string]*poly.Poly
+		var subs []sub
+		for _, si := range ins {
+			X, Y, Z := si.X, si.Y, si.Z
+			subs = append(subs,
+				sub{X: R.Int(0), Y: R.Var(Z)},               // neutral element (0:Z:Z)
+				sub{X: R.Int(0), Y: R.Var(Z).Neg()},         // order 2 (0:−Z:Z)
+				sub{X: im.Mul(R.Var(Z)), Y: R.Int(0)},       // order 4 (iZ:0:Z)
+				sub{X: im.Mul(R.Var(Z)).Neg(), Y: R.Int(0)}, // order 4 (−iZ:0:Z)
+			)
+		}
+		if len(ins) == 2 {
+			a, b := ins[0], ins[1]
+			X1, Y1, Z1 := R.Var(a.X), R.Var(a.Y), R.Var(a.Z)
+			for _, sgn := range []int64{1, -1} {
+				sg := R.Int(sgn)
+				subs = append(subs,
+					sub{b.X: X1.Mul(sg), b.Y: Y1, b.Z: Z1},                             // ±P
+					sub{b.X: X1.Mul(sg).Neg(), b.Y: Y1.Neg(), b.Z: Z1},                 // ±P + (0,−1)
+					sub{b.X: im.Mul(Y1).Mul(sg), b.Y: im.Mul(X1), b.Z: Z1},             // ±P + (i,0)  [(x,y)+(i,0) = (iy, ix)]
+					sub{b.X: im.Mul(Y1).Mul(sg).Neg(), b.Y: im.Mul(X1).Neg(), b.Z: Z1}, // ±P + (−i,0)
+				)
+			}
+		}
+		var divisors []*poly.Poly
+		zlike := map[string][]string{"Point": {"z"}, "projP2": {"Z"}, "projP1xP1": {"Z", "T"}, "projCached": {"Z"}, "affineCached": {}}[kind]
+		for _, n := range zlike {
+			divisors = append(divisors, field(n).Num)
+		}
+		for _, e := range agg.Elems {
+			if fe, ok := e.(*absint.FE); ok {
+				divisors = append(divisors, fe.Den)
+			}
+		}
+		for _, sb := range subs {
+			for _, dv := range divisors {
+				q := dv
+				for name, repl := range sb {
+					q = q.Subst(name, repl)
+				}
+				for _, si := range ins {
+					X, Y, Z := R.Var(si.X), R.Var(si.Y), R.Var(si.Z)
+					repl := Y.Mul(Y).Mul(Z).Mul(Z).Sub(X.Mul(X).Mul(Z).Mul(Z)).Sub(R.Const(absint.DSpec()).Mul(X).Mul(X).Mul(Y).Mul(Y))
+					q = q.ReduceByRule(si.Z, 4, repl)
+				}
+				if q.IsZero() {
+					return false
+				}
+			}
+		}
+		return true
+	}
 	for _, cd := range cands {
 		if eq(x, cd.x) && eq(y, cd.y) {
+			if !nondegenerate() {
+				c.Set.Note("[%s] %s agrees with a group operation on generic inputs but one of the quantities it divides by vanishes identically on a small-order locus (an incomplete formula): not recognised", cfg, load.ShortName(fn))
+				return nil, false
+			}
 			op := &absint.PointOp{Coeff: make([]int, len(ps)), OutParam0: outIsParam0, ReturnsValue: res.Len() == 1 && !outPtr, ReturnsParam0: res.Len() == 1 && outPtr}
 			for j, pi := range inIdx {
 				op.Coeff[pi] = cd.coeff[j]
